@@ -20,6 +20,13 @@ func (e *simNetErr) Temporary() bool { return e.temp }
 
 var errSimReset = &simNetErr{"sim: connection reset by peer", false}
 
+// simTimeoutErr is what a read past its deadline returns (like os.ErrDeadlineExceeded).
+type simTimeoutErr struct{}
+
+func (*simTimeoutErr) Error() string   { return "sim: i/o timeout" }
+func (*simTimeoutErr) Timeout() bool   { return true }
+func (*simTimeoutErr) Temporary() bool { return true }
+
 // WriteFault is a one-shot fault armed on a SimConn's write side.
 type WriteFault struct {
 	Kind  string // "stall", "temp", "perm", "plain"
@@ -68,6 +75,8 @@ type SimConn struct {
 
 	laddr, raddr net.Addr
 	start        time.Time
+	rdeadline    time.Time // honoured by Read on the fake clock (zero = none)
+	Timeouts     int
 }
 
 func newSimConn(e *Env, name string, laddr, raddr net.Addr) *SimConn {
@@ -115,6 +124,36 @@ func (c *SimConn) Read(p []byte) (int, error) {
 		}
 		// Park. The park is accounted here and un-accounted by whoever wakes us
 		// (wakeReaderLocked), so the count is never stale while we are runnable.
+		dl := c.rdeadline
+		if !dl.IsZero() {
+			until := time.Until(dl)
+			if until <= 0 {
+				c.Timeouts++
+				c.mu.Unlock()
+				c.e.Fault("read-timeout")
+				return 0, &simTimeoutErr{}
+			}
+			// a deadline is pending: wait on the fake clock as well (not a seam park:
+			// a timer wait is durable but ends without a waker)
+			c.inRead = true
+			c.e.ParkBegin(false)
+			c.mu.Unlock()
+			tm := time.NewTimer(until)
+			select {
+			case <-c.rwait:
+				tm.Stop()
+			case <-tm.C:
+				c.mu.Lock()
+				if c.inRead {
+					c.inRead = false
+					c.e.ParkEnd(false)
+				} else {
+					<-c.rwait // a waker got in at the same instant: consume its token
+				}
+				c.mu.Unlock()
+			}
+			continue
+		}
 		c.inRead = true
 		c.e.ParkBegin(false)
 		c.mu.Unlock()
@@ -343,7 +382,12 @@ func (c *SimConn) ClosedAt() (bool, time.Duration) {
 func (c *SimConn) LocalAddr() net.Addr                { return c.laddr }
 func (c *SimConn) RemoteAddr() net.Addr               { return c.raddr }
 func (c *SimConn) SetDeadline(t time.Time) error      { return nil }
-func (c *SimConn) SetReadDeadline(t time.Time) error  { return nil }
+func (c *SimConn) SetReadDeadline(t time.Time) error {
+	c.mu.Lock()
+	c.rdeadline = t
+	c.mu.Unlock()
+	return nil
+}
 func (c *SimConn) SetWriteDeadline(t time.Time) error { return nil }
 
 var _ net.Conn = (*SimConn)(nil)
